@@ -17,7 +17,7 @@ enum Env {
     Heal,
 }
 
-fn swarm_epoch() -> i128 {
+pub fn swarm_epoch() -> i128 {
     match weighted("cfg.epoch", &[5, 3, 2, 1]) {
         0 => 0xE000_0000i128 << 32,
         1 => {
@@ -64,7 +64,7 @@ pub fn run() {
 
     exec::block_on(async move {
         // a share of the runs drives the sources through the REAL ntpd SourceTask (hook H15)
-        if chance("cfg.glue", 0.15) {
+        if chance("cfg.glue", if focus == "C05" { 0.4 } else { 0.15 }) {
             probe("real-source-task-mode");
             crate::glue::run(focus, clean).await;
             return;
